@@ -94,6 +94,10 @@ Tree0 == {E(<<"l2">>, "dir", <<>>), E(L3, "dir", <<>>), E(Target, "dir", <<>>),
           E(L3 \o <<"a">>, "file", <<>>), E(L3 \o <<"b">>, "dir", <<>>), E(L3 \o <<"b", "a">>, "file", <<>>)}
          \cup UNION {{E(Src(x), "dir", <<>>), E(Src(x) \o <<"a">>, "file", <<>>), E(Src(x) \o <<"d">>, "dir", <<>>),
                       E(Src(x) \o <<"d", "a">>, "file", <<>>)} : x \in {"p", "q"}}
+         \* staging only: a third producer r whose FILE is called d and whose DIRECTORY is called a -- the names the
+         \* directories / files of p and q carry, so that a staged link and a later copy of the same name differ in kind
+         \cup (IF Mode = "stage" THEN {E(Src("r"), "dir", <<>>), E(Src("r") \o <<"d">>, "file", <<>>), E(Src("r") \o <<"a">>, "dir", <<>>),
+                                      E(Src("r") \o <<"a", "a">>, "file", <<>>)} ELSE {})
 
 Has(fs, p) == p = Root \/ \E e \in fs : e.p = p
 Ent(fs, p) == CHOOSE e \in fs : e.p = p
@@ -233,11 +237,12 @@ ApplyEntry(fs, m) ==
         IN IF ~par.ok \/ Kind(fs, L) # "none" THEN Res(FALSE, fs, {})
            ELSE Res(TRUE, Put(fs, E(L, "sym", <<"">> \o MSrc(m.t))), {L})
 
-(* ---- one staging operation of a component: sources are p/a, q/a (files), p/d, q/d (directories), ------------------ *)
+(* ---- one staging operation of a component: sources are p/a, q/a, r/d (files), p/d, q/d, r/a (directories), -------- *)
 (* ---- arch = an archive with the single file member d/a -------------------------------------------------------------- *)
 SrcPath(s) == CASE s = "pa" -> Src("p") \o <<"a">> [] s = "qa" -> Src("q") \o <<"a">>
-                [] s = "pd" -> Src("p") \o <<"d">> [] s = "qd" -> Src("q") \o <<"d">> [] OTHER -> <<>>
-IsDirSrc(s) == s \in {"pd", "qd"}
+                [] s = "pd" -> Src("p") \o <<"d">> [] s = "qd" -> Src("q") \o <<"d">>
+                [] s = "rd" -> Src("r") \o <<"d">> [] s = "ra" -> Src("r") \o <<"a">> [] OTHER -> <<>>
+IsDirSrc(s) == s \in {"pd", "qd", "ra"}
 ApplyStage(fs, m) ==
     LET S == SrcPath(m.t)
         L == Append(Target, IF m.t = "arch" THEN "x" ELSE Last(S))
@@ -250,7 +255,9 @@ ApplyStage(fs, m) ==
          [] OTHER ->                                            \* shutil.copy of a file: the destination is opened for writing
                             LET f == Final(L, fs, Fuel)
                             IN IF ~f.ok \/ f.p = S THEN Res(FALSE, fs, {})                  \* SameFileError
-                               ELSE IF Kind(fs, f.p) = "dir" THEN Res(TRUE, Put(fs, E(Append(f.p, Last(S)), "file", <<>>)), {Append(f.p, Last(S))})
+                               \* shutil.copy(S, target) names the destination target/<name> itself: when that is (a link to) a
+                               \* directory the open for writing fails (IsADirectoryError), nothing is written INTO the directory
+                               ELSE IF Kind(fs, f.p) = "dir" THEN Res(FALSE, fs, {})
                                ELSE Res(TRUE, Put(fs, E(f.p, "file", <<>>)), {f.p})
 
 Apply(fs, inp, i) == CASE Mode = "archive" -> ApplyMember(fs, inp, i, Target)
@@ -306,7 +313,7 @@ Members ==
                         /\ m.t # m.n          \* a link to itself is excluded (tarfile recurses without bound on some of them),
                         /\ (m.k = "sym" => Norm(Front(m.n) \o m.t) # Norm(m.n))}      \* also when it only is one after resolution
       [] Mode = "manifest" -> [k : {"copy", "link"}, n : Names, t : Srcs]
-      [] OTHER -> [k : {"copy", "link"}, n : {<<>>}, t : {"pa", "qa", "pd", "qd"}] \cup {[k |-> "extract", n |-> <<>>, t |-> "arch"]}
+      [] OTHER -> [k : {"copy", "link"}, n : {<<>>}, t : {"pa", "qa", "pd", "qd", "rd", "ra"}] \cup {[k |-> "extract", n |-> <<>>, t |-> "arch"]}
 (* ---- the "chain" family ------------------------------------------------------------------------------------------- *)
 LexInside(s) == LET x == Norm(s) IN x = <<>> \/ x[1] \notin {"..", ""}
 (* what a check of each member on its own, before anything is extracted, can see *)
